@@ -110,6 +110,9 @@ known("C11", "fstring-unparse-doubles-backslashes", "constants inside an f-strin
 known("C11", "fstring-concat-pieces-normalised-by-unparse", "implicitly concatenated f-strings come back with adjacent literal pieces merged, empty pieces dropped and the `u` kind marker lost (tree not identical, text equal)", "u'a' f'{x}'")
 fixed("C11", "unlisted:rendering-rejected", "8ec82f4", "a dict-unpacking operand below bitwise-or precedence was rendered without parentheses (`{**a or b}`)", "{**(a or b)}")
 
+# ---------------------------------------------------------------- C12
+known("C12", "visitor-does-not-descend-into-product-nodes", "the default Visitor has empty generic_visit bodies for the product node types (arguments, arg, keyword, alias, withitem, match_case, comprehension), so every statement/expression/pattern beneath them is never reached (generator emits empty bodies for products; a repair means changing ast/asdl_rs.py incl. its boxing rules and regenerating)", "f(k=x)")
+
 # further per-property tables are appended by findings_*.py fragments (one per check family)
 if __name__ == "__main__":
     import os
